@@ -23,6 +23,14 @@ def model_phase(tier, wd, info):
         info["transitions"] += r.generated
         info["model_runs"].append(dict(module="Signer", mix="Crash", MaxFaults=faults, MaxCrashes=crashes,
                                        invariants=["FailClosed", "DurableBeforeSign", "NoSlashableAtt"], distinct=r.distinct, generated=r.generated))
+    # shutdown: the store is closed while requests are in flight (CloseStore action)
+    for mix, reqs, keys in (("Crash", "abc", ["k1", "k2"]), ("Opposite", "abcd", ["k1", "k2"])):
+        r = tlc("MCSigner", make_cfg(concfamily.sconsts(mix, list(reqs), keys, faults=0 if mix == "Opposite" else 1, MaxCloses=1),
+                                     invariants=["FailClosed", "DurableBeforeSign", "NoSlashableAtt", "TypeOK"], deadlock=True), wd, name="SignerClose_" + mix, timeout=1500)
+        require_ok(r, "Signer(%s, CloseStore)" % mix)
+        info["states"] += r.distinct
+        info["transitions"] += r.generated
+        info["model_runs"].append(dict(module="Signer", mix=mix, MaxCloses=1, invariants=["FailClosed", "DurableBeforeSign", "NoSlashableAtt", "no deadlock"], distinct=r.distinct, generated=r.generated))
     rm = tlc("MCSigner", make_cfg(concfamily.sconsts("Crash", list("abc"), ["k1", "k2"], faults=1, FaultIgnored=True),
                                   invariants=["FailClosed"], deadlock=False), wd, name="mut_FaultIgnored")
     require_killed(rm, "FaultIgnored=TRUE", ["FailClosed"])
@@ -125,6 +133,14 @@ def run(prop, tier, seed):
             sc, fpos, structural = plan_scenario(sel, "C06-multi-%d" % j)
             scenarios.append(sc)
             meta[sc["id"]] = dict(plans=sel, fpos=fpos, structural=structural, multi=True)
+        # shutdown under load: the store is closed while the request is parked at a storage gate (fetch, store, batch store)
+        close_scs = []
+        for kind, n_, gate in (("att", 1, "store.fetch.enter"), ("att", 1, "store.store.enter"), ("prop", 1, "store.fetch.enter"), ("prop", 1, "store.store.enter"),
+                               ("atts", 2, "store.fetch.enter"), ("atts", 3, "store.batch.enter")):
+            op = dict(id="q", kind=kind, ents=[ent_for(kind, i_, i_) for i_ in range(n_)])
+            warm = dict(id="warm", kind="multi", ents=[dict(k=i_, root="W") for i_ in range(n_)], dom="randao")
+            close_scs.append(dict(id="C06-close-%s-%s" % (kind, gate), world=dict(nkeys=12), conc=["0", "1", "2", "3"], no_export=True,
+                                  ops=[warm, dict(id="par", kind="par", gate=True, ops=[op], sched=[dict(r="q", site="until:" + gate), dict(r="q", site="close")])]))
         # control group: the same requests without any fault must be signed (else a fault plan proves nothing)
         controls = {}
         for (kind, n) in keys:
@@ -143,6 +159,15 @@ def run(prop, tier, seed):
             if not resp or resp[0]["res"] != ["SUCCEEDED"] * n:
                 raise Inconclusive("control request %s/%d is not signed without faults (%s): fault plans would prove nothing" %
                                    (kind, n, resp[0]["res"] if resp else None))
+        close_res = {}
+        for csc in close_scs:
+            cevs, crc, cerr = run_driver([csc], wd, tag="close", timeout=120)
+            if crc not in (0, 3):
+                raise Inconclusive("close-in-flight driver exited %s: %s" % (crc, cerr[-300:]))
+            if not any(e["ev"] == "CloseStore" for e in cevs):
+                raise Inconclusive("close-in-flight scenario %s never closed the store" % csc["id"])
+            by[csc["id"]] = cevs
+            close_res[csc["id"]] = "hung (no response)" if crc == 3 else "answered"
         lines, index, reached, distinct = [], [], 0, set()
         for sc in scenarios:
             sid = sc["id"]
@@ -177,6 +202,13 @@ def run(prop, tier, seed):
             start = len(lines) + 1
             seqfamily.project_one(sid, {"q": dict(wf=False, ip="none", faults=fpos)}, [], evs, lines)
             index.append((start, len(lines), sid))
+        for csc in close_scs:
+            start = len(lines) + 1
+            seqfamily.project_one(csc["id"], {"q": dict(wf=False, ip="none", faults=[0])}, [], by[csc["id"]], lines)
+            index.append((start, len(lines), csc["id"]))
+            meta[csc["id"]] = dict(plans=[dict(kind=csc["ops"][1]["ops"][0]["kind"], site="close-in-flight", gate=csc["ops"][1]["sched"][0]["site"])], fpos=[0], structural=True)
+            scenarios.append(csc)
+            reached += 1
         single_unreached = [meta[s["id"]]["plans"][0] for s in scenarios if s["id"].startswith("C06-single")
                             and not ([e for e in by[s["id"]] if e["ev"] == "End"][0]["faults_hit"] or meta[s["id"]]["structural"])]
         if len(single_unreached) > 0:
@@ -200,7 +232,7 @@ def run(prop, tier, seed):
                         "(or the structural fault - garbage record, closed store, wrong-length domain - was in place) on a request that is signed without it",
                    samples=[dict(plan=meta[s["id"]]["plans"], faults=s.get("faults"), request=s["ops"][-1]) for s in scenarios[:3]],
                    states=info["states"], transitions=info["transitions"], traces_validated_against_impl=len(index),
-                   single_fault_plans=len(plans), plans_reached=reached, model_runs=info["model_runs"], mutants=info["mutants"],
+                   single_fault_plans=len(plans), plans_reached=reached, close_in_flight=close_res, model_runs=info["model_runs"], mutants=info["mutants"],
                    exhaustive=True, trace_events_validated=len(lines))
         write_evidence(prop, tier, seed, "fault_enumeration", cov, time.time() - t0, violations=len(verdict.violations),
                        assumptions=["fault kinds per call site are those listed in spec/FaultTable.tla",
